@@ -108,6 +108,15 @@ class ObjV:
 NONE = NoneV()
 
 
+def has_q(a: Any) -> bool:
+    """True if an axis term (or tuple of axes) mentions the unknown shape marker '?'."""
+    if a == '?':
+        return True
+    if isinstance(a, tuple):
+        return any(has_q(x) for x in a)
+    return False
+
+
 def axes_str(a: tuple) -> str:
     def one(x: Any) -> str:
         if isinstance(x, tuple):
@@ -198,6 +207,9 @@ def join_val(a: Any, b: Any) -> Any:
         return a
     if isinstance(a, TV) and isinstance(b, TV) and a.axes == b.axes and a.unit == b.unit and a.dtype == b.dtype:
         return TV(a.axes, a.unit, a.dtype, a.quals & b.quals, a.alias | b.alias, a.const if a.const == b.const else None, a.coef if a.coef == b.coef else (), '')
+    if isinstance(a, TV) and isinstance(b, TV):
+        # shapes disagree between paths: keep a shape-unknown tensor so that alias / dtype facts survive
+        return TV(('?',), a.unit if a.unit == b.unit else (), a.dtype if a.dtype == b.dtype else '?', a.quals & b.quals, a.alias | b.alias, None, (), '')
     if isinstance(a, NoneV) and isinstance(b, TV):
         return b.q('maybe-none')
     if isinstance(b, NoneV) and isinstance(a, TV):
@@ -617,6 +629,10 @@ class _CB(flow.DefaultCB):
         it = self.it
         if isinstance(a, Top) or isinstance(b, Top):
             return Top('operand unknown')
+        if (isinstance(a, TV) and has_q(a.axes)) or (isinstance(b, TV) and has_q(b.axes)):
+            ta = a if isinstance(a, TV) else b
+            tb = b if isinstance(b, TV) else a
+            return TV(('?',), (), ta.dtype if not isinstance(tb, TV) or ta.dtype == tb.dtype else '?', frozenset(), frozenset(), None, (), '')
         if isinstance(op, ast.MatMult):
             if isinstance(a, TV) and isinstance(b, TV):
                 if len(a.axes) == 2 and len(b.axes) == 2:
